@@ -236,7 +236,10 @@ void harness(void) {
 	mk_handle(&nh);
 	nh.state = KSI_ASYNC_STATE_WAITING_FOR_DISPATCH;     /* set by KSI_Async*Handle_new */
 	/* the handle may be one that completed an earlier round (added again): it then still carries that round's response */
-	nh.respCtx = nondet_bool() ? (void *)&g_ctx : NULL; nh.respCtx_free = nh.respCtx != NULL ? as_resp_free : NULL; nh.errMsg = NULL; nh.raw = NULL;
+	nh.respCtx = nondet_bool() ? (void *)&g_ctx : NULL; nh.respCtx_free = nh.respCtx != NULL ? as_resp_free : NULL; nh.errMsg = NULL;
+	/* ... and the serialized bytes and the partial-send cursor of that round */
+	nh.raw = nondet_bool() ? malloc(4) : NULL; nh.len = nh.raw != NULL ? 4 : 0; nh.sentCount = nondet_size(); g_ar_raw_last = NULL;
+	__CPROVER_assume(nh.sentCount <= nh.len);
 	had_resp = nh.respCtx != NULL;
 	ar_init();
 	__CPROVER_assume(ainv_inv(&g_c));
@@ -256,6 +259,11 @@ void harness(void) {
 			"addRequest: accepted -> the handle sits in exactly one previously empty slot, its id names that slot and is the id sent on the wire, one copy given to the transport");
 	__CPROVER_assert(IMPLIES(res == KSI_OK && !hasReq, k == 0), "addRequest: a configuration-only request takes no slot");
 	__CPROVER_assert(IMPLIES(res == KSI_OK, nh.respCtx == NULL && nh.respCtx_free == NULL), "addRequest: an accepted handle carries no response of an earlier round (a re-added handle can never be completed with a stale reply)");
+	__CPROVER_assert(IMPLIES(res == KSI_OK && hasReq, nh.raw != NULL && nh.raw == g_ar_raw_last && nh.len == 4 && nh.sentCount == 0),
+			"addRequest: accepted -> the handle carries the freshly serialized request, whole, with the send cursor at its first byte (C14: requests travel whole)");
+#ifdef ONLY_CURSOR    /* variant borrowed by C14: the serialized bytes and the send cursor only (the cache accounting is C13's subject) */
+	if (res == KSI_OK && hasReq && nh.sentCount == 0) REACH("request accepted"); if (res != KSI_OK) REACH("refused");
+#else
 	__CPROVER_assert(IMPLIES(res == KSI_OK && !conf_before, g_c.pending == c0.pending + (hasReq ? 1 : 0) + (hasCnf ? 1 : 0) && g_c.received == c0.received),
 			"addRequest: accepted -> pending grows by one per accepted handle");
 	__CPROVER_assert(IMPLIES(res == KSI_OK && !(hasCnf && conf_before), ainv_inv(&g_c)), "addRequest: accepted -> Inv(c) holds (no configuration handle replaced)");
@@ -272,6 +280,7 @@ void harness(void) {
 	if (res == KSI_OK && !hasReq && hasCnf) REACH("configuration request accepted");
 	if (res == KSI_ASYNC_REQUEST_CACHE_FULL) REACH("cache full");
 	if (res != KSI_OK && res != KSI_ASYNC_REQUEST_CACHE_FULL) REACH("refused for another reason");
+#endif
 }
 #endif
 
